@@ -30,9 +30,9 @@ func c02Build(cs c02Case) (root, obs dyn.Buf, cur dyn.Buf, st *mstore, mcur mvie
 	obs = root.Slice(0, cs.K)
 	st = newStore(cs.C * cs.K)
 	for i := range st.cells {
-		st.cells[i] = int64(i + 1)
+		st.cells[i] = tk(int64(i + 1))
+		obs.SetSample(i, dyn.Tok(t, st.cells[i]))
 	}
-	fill(obs, 1)
 	mcur = mview{st: st, off: 0, n: cs.C*cs.L + cs.R, ch: cs.C, bits: dyn.Types[t].Bits}
 	cur = root
 	for _, p := range cs.Path {
@@ -90,11 +90,11 @@ func c02Run(cs c02Case) (fs []F) {
 	// aliasing, both ways, over the child's whole capacity
 	cf := full(child)
 	mcf, _ := mchild.slice(0, mchild.capacity())
-	tok := int64(len(st.cells) + 1)
+	tok := tk(int64(len(st.cells) + 1))
 	for k := 0; k < mcf.n; k++ {
 		cf.SetSample(k, dyn.Tok(t, tok))
 		mcf.set(k, tok)
-		tok++
+		tok = tk(tok + 1)
 		if d := cmpStore(obs, st); d != "" {
 			fail("alias", "after writing sample %d through the child: %s", k, d)
 			return
@@ -107,7 +107,7 @@ func c02Run(cs c02Case) (fs []F) {
 			return
 		}
 		st.cells[mcf.off+k] = tok
-		tok++
+		tok = tk(tok + 1)
 	}
 	return
 }
@@ -206,6 +206,47 @@ func init() {
 			})
 			_ = nodes
 			_ = invalid
+			// long buffers, sparse ranges
+			var bigJobs []job
+			for _, t := range []int{dyn.Int8, dyn.Uint16, dyn.Float32, dyn.Int64} {
+				for C := 1; C <= 4; C++ {
+					for _, K := range []int{17, 100} {
+						for _, L := range []int{0, K / 2, K} {
+							bigJobs = append(bigJobs, job{t, root{C, L, K, 0}})
+						}
+					}
+				}
+			}
+			c.ParallelFor(len(bigJobs), func(i int) {
+				j := bigJobs[i]
+				K := j.r.K
+				if K*j.r.C > 100 {
+					K = 100 / j.r.C // tokens stay below 120
+				}
+				var n int64
+				pts := func(cp int) []int {
+					return []int{-1, 0, 1, 2, cp / 2, cp - 1, cp, cp + 1, math.MaxInt/j.r.C + 1, math.MinInt}
+				}
+				for _, s := range pts(K) {
+					for _, e := range pts(K) {
+						cs := c02Case{Type: tn(j.t), C: j.r.C, L: min2(j.r.L, K), K: K, S: s, E: e}
+						fs := c02Run(cs)
+						c.Check(cs, true, fs)
+						n++
+						if s >= 0 && s <= e && e <= K && len(fs) == 0 {
+							for _, s2 := range pts(K - s) {
+								for _, e2 := range pts(K - s) {
+									cs2 := cs
+									cs2.Path, cs2.S, cs2.E = [][2]int{{s, e}}, s2, e2
+									c.Check(cs2, true, c02Run(cs2))
+									n++
+								}
+							}
+						}
+					}
+				}
+				c.Add("slicings_tested", n)
+			})
 			c.Sample(c02Case{Type: "int8", C: 4, L: 1, K: 2, R: 0, S: 0, E: 1<<62 + 1})
 			c.Sample(c02Case{Type: "float32", C: 2, L: 1, K: 3, R: 1, Path: [][2]int{{1, 2}}, S: 0, E: 2})
 			c.Set("rule", fmt.Sprintf("13 element types x C in 1..4 x roots Alloc(C,L,K<=%d) incl. partly filled last frames x nested valid slicings to depth %d x every (start,end) in ([-2,cap+2] + MinInt, MinInt+1, -2^62, MaxInt/C-1..+1, MaxInt-1, MaxInt, and every x with C*x wrapping mod 2^64 to 0..cap+1)^2; each (root, path, start, end) is enumerated once (distinct by construction) and every one is non-trivial (either a view whose aliasing is checked cell by cell, or a range that must panic)", maxK, maxDepth))
@@ -213,4 +254,11 @@ func init() {
 		},
 		RunCase: func(c *core.Ctx, raw json.RawMessage) []F { return c02Run(decode[c02Case](raw)) },
 	})
+}
+
+func min2(a, b int) int {
+	if a < b {
+		return a
+	}
+	return b
 }
